@@ -529,3 +529,23 @@ func shortStack() string {
 	}
 	return strings.Join(out, " | ")
 }
+
+// FuzzC18 is the coverage-guided variant (thorough tier).
+func FuzzC18(f *testing.F) {
+	f.Add([]byte{0}, []byte{0}, []byte{0, 1}, bytes.Repeat([]byte{0xff}, 255), uint64(0), uint64(0), uint64(1), uint64(1)<<63)
+	f.Add(bytes.Repeat([]byte{1}, 20), bytes.Repeat([]byte{2}, 20), bytes.Repeat([]byte{1}, 21), bytes.Repeat([]byte{2}, 19), uint64(255), uint64(256), ^uint64(0), uint64(0))
+	f.Add(bytes.Repeat([]byte{32}, 32), []byte{32}, []byte{32}, bytes.Repeat([]byte{32}, 32), uint64(1)<<32, uint64(1)<<32-1, uint64(1)<<56, uint64(65536))
+	f.Fuzz(func(t *testing.T, r1, s1, r2, s2 []byte, a0, a1, b0, b1 uint64) {
+		for _, x := range [][]byte{r1, s1, r2, s2} {
+			if len(x) < 1 || len(x) > 255 {
+				t.Skip()
+			}
+		}
+		if msg := checkIDs([]uint64{a0, a1}, []uint64{b0, b1}); msg != "" {
+			t.Fatalf("C18 violated: %s", msg)
+		}
+		if msg := checkAddrs([][]byte{r1, s1}, [][]byte{r2, s2}); msg != "" {
+			t.Fatalf("C18 violated: %s", msg)
+		}
+	})
+}
